@@ -54,7 +54,7 @@ def build_cases(tier, seed):
     meta = {
         "family": "ranked: " + common.family_text(tier, extra4=False) + "; Prof(Perm(4),2,{1}) for the single-round rules; a slice of Prof(Perm(4)+Bullet(4),2,{1,2}) for one-by-one STV / SequentialRCV with a tiebreak; tied ballots Prof(Weak(3),2,{1,2}); score profiles; "
                   + ("engineered tie family: Prof(Rank(4),2,{1,2}) filtered to profiles with equal positive first-place or equal Borda scores; " if tier == "thorough" else "")
-                  + "x every non-random rule configuration (Plurality, SNTV, Borda, TopTwo, CondoBorda, DominatingSets, STV/IRV/"
+                  + "x every non-random rule configuration (Plurality, SNTV, Borda (conventional and 0/1 / (2,1,..,1) score vectors), TopTwo, CondoBorda, DominatingSets, STV/IRV/"
                   "SequentialRCV with fractional transfer, Alaska, Rating/Approval/Limited/Cumulative/BlocPlurality) x tiebreak in "
                   "{None,random,borda,first_place} x all RNG paths",
         "assumptions": ["intentionally random rules (RandomDictator, BoostedRandomDictator, PluralityVeto, random transfer) are excluded by the property",
@@ -181,7 +181,16 @@ def run_case(i, tier):
     cs = case[0]
     cnt = collections.Counter()
     out = {"counters": cnt, "viols": []}
-    for (label, vrule, kw, exp_m, spec) in c01.rule_menu(mkind, tag, case, tier):
+    menu = list(c01.rule_menu(mkind, tag, case, tier))
+    if mkind in ("rank", "weak") and kind != "rank4m":
+        # Borda with a non-conventional score vector: ties on the custom tally whose conventional Borda scores differ
+        n = len(cs)
+        vecs = {tuple([1] * k + [0] * (n - k)) for k in range(1, n + 1)} | {tuple([2] + [1] * (n - 1))}
+        for m in range(1, n + 1):
+            for tb in common.TBS:
+                for vec in sorted(vecs):
+                    menu.append(("Borda", "Borda", dict(m=m, tiebreak=tb, score_vector=vec), m, ("borda", m, tb)))
+    for (label, vrule, kw, exp_m, spec) in menu:
         if label in RANDOM_RULES or kw.get("transfer") == "random":
             continue
         if kind == "rank4s" and label not in ("Plurality", "SNTV", "Borda", "TopTwo", "CondoBorda", "DominatingSets"):
